@@ -21,7 +21,7 @@ var (
 	dec         = wire.Dec
 	encFrames   = wire.EncFrames
 	encElems    = wire.EncElems
-	obsOf       = wire.ObsOf
+	obsOf       = wire.ObsWithError
 	paramRoles  = wire.ParamRoles
 	methodNames = wire.MethodNames
 	hasRole     = wire.HasRole
@@ -324,14 +324,21 @@ func (g *c15gen) callLine(d, r int, m string, corrupt bool) (line string, nonbla
 			nonblank = true
 		}
 	}
-	if m == "Convert" || m == "ConvertS" {
+	if m == "Convert" || m == "ConvertS" || m == "ExtMsgfForeign" {
 		e := elemSpec{Kind: []string{"N", "W", "Z", "C", "P"}[rng.Intn(5)], Val: randArg(rng)}
 		if e.Kind == "Z" {
 			e.Val = ""
 		}
-		elems = []elemSpec{e}
+		if m == "ExtMsgfForeign" {
+			elems = append([]elemSpec{e}, elems...) // the format and its operands are dropped by the code
+		} else {
+			elems = []elemSpec{e}
+		}
 		formatted = fmt.Sprintf("%+v", e.ErrValue())
 		nonblank = true
+	}
+	if corrupt && m == "ExtMsgfForeign" {
+		corrupt = false
 	}
 	if corrupt && len(params) > 0 {
 		params[rng.Intn(len(params))] += "\xff\xfe"
@@ -393,6 +400,14 @@ func (g *c15gen) chainCase() hx.Case {
 			branched = true
 		}
 		m := methodNames[rng.Intn(len(methodNames))]
+		switch rng.Intn(12) {
+		case 0:
+			m = "ExtMsgf"
+		case 1:
+			if rng.Intn(3) == 0 {
+				m = "ExtMsgfForeign"
+			}
+		}
 		if (m == "Convert" || m == "ConvertS") && i > 0 && rng.Intn(3) == 0 {
 			// Convert of a value that already is a gerror: returned as it is
 			lines = append(lines, fmt.Sprintf("ge conv %d %d %s %d", i+1, from, m, rng.Intn(i+1)))
@@ -406,6 +421,18 @@ func (g *c15gen) chainCase() hx.Case {
 	}
 	if branched {
 		tags = append(tags, "branched")
+	}
+	for _, l := range lines {
+		if strings.Contains(l, " ExtMsgfForeign ") {
+			tags = append(tags, "extmsgf-foreign")
+			break
+		}
+	}
+	for _, l := range lines {
+		if strings.Contains(l, " ExtMsgf ") {
+			tags = append(tags, "extmsgf-gerror")
+			break
+		}
 	}
 	// every object made along the way, the factory first, must still be what it was
 	for i := 0; i <= L; i++ {
@@ -451,7 +478,7 @@ func goLikeName(rng *rand.Rand) string {
 
 func runC15(f *hx.Flags) {
 	impl := newGeImpl()
-	r := hx.NewRunner(f, "h-gerrclone", impl, "chains of 0-8 of the 19 Factory methods (linear, sometimes branching off an earlier result) from factories with empty/preset Message and Source; arguments from Unicode white space, blanks, padded text, format verbs with 0-3 operands (fmt.Sprintf applied by the harness and handed to the model), foreign errors for Convert*; calls made from 8 kinds of call site (function, pointer/value method, closures, generic function/method, recursion 0-40 deep) whose frame names the harness records itself with runtime.CallersFrames; every intermediate error and, at the end, every object incl. the factory is observed (name, message, source, detail tag, stack length). Plus StackElem.Metric on runtime-shaped names, strings.TrimSpace on Unicode blanks, and one 16-goroutine -race execution of the chains against shared package-level factories. non-trivial: chain of >=2 calls with >=1 non-blank tag/message extension; distinct by request lines")
+	r := hx.NewRunner(f, "h-gerrclone", impl, "chains of 0-8 of the 19 Factory methods and gerror.ExtMsgf (on the value itself, or on a foreign error / nil) (linear, sometimes branching off an earlier result) from factories with empty/preset Message and Source; arguments from Unicode white space, blanks, padded text, format verbs with 0-3 operands (fmt.Sprintf applied by the harness and handed to the model), foreign errors for Convert*; calls made from 8 kinds of call site (function, pointer/value method, closures, generic function/method, recursion 0-40 deep) whose frame names the harness records itself with runtime.CallersFrames; every intermediate error and, at the end, every object incl. the factory is observed (name, message, source, detail tag, stack length, Error() without the stack text). Plus StackElem.Metric on runtime-shaped names, strings.TrimSpace on Unicode blanks, and one 16-goroutine -race execution of the chains against shared package-level factories. non-trivial: chain of >=2 calls with >=1 non-blank tag/message extension; distinct by request lines")
 	r.KeyOf = func(d *hx.Disagreement) string {
 		ws := strings.Fields(d.Request)
 		switch {
